@@ -24,7 +24,32 @@ class GaveUp(Exception):
     pass
 
 
-def one(ctx, S, coef, parity, crit, maxiter, force_form=None):
+def one(ctx, S, coef, parity, crit, maxiter, force_form=None, use_result=None):
+    """one solver call, judged; afterwards the caller USES what it was given (`use_result`): a returned protocol is the
+    caller's object - it may be updated, its arrays edited in place.  A library that kept a reference to what it handed
+    out answers the next identical request with the caller's edits, and the ordinary judgement of that answer reports it."""
+    keep = {}
+    try:
+        return _one(ctx, S, coef, parity, crit, maxiter, force_form, keep)
+    finally:
+        if use_result and "proto" in keep:
+            ctx.count("result-used:" + use_result)
+            ph, proto = keep["ph"], keep["proto"]
+            try:
+                if use_result == "update":
+                    proto.update_reduced_phases(np.asarray(proto.reduced_phases, dtype=float) + 0.05)
+                elif use_result == "inplace":
+                    for a_ in (proto.reduced_phases, proto.full_phases, ph):
+                        if isinstance(a_, np.ndarray) and a_.flags.writeable:
+                            a_ += 0.7319
+                elif use_result == "phases-only":
+                    if isinstance(ph, np.ndarray) and ph.flags.writeable:
+                        ph *= 0.5
+            except Exception:  # noqa
+                pass
+
+
+def _one(ctx, S, coef, parity, crit, maxiter, force_form, keep):
     d = ctx.driver()
     errs = []
     orig = S.SymmetricQSPProtocol.gen_jacobian
@@ -62,6 +87,7 @@ def one(ctx, S, coef, parity, crit, maxiter, force_form=None):
                 arr = np.array(coef, dtype=(np.float32 if form == "float32-array" else np.float16))
                 coef = [float(x) for x in arr]          # the target IS what the narrow array holds (exactly representable reals)
             ph, err, it, proto = S.newton_Solver(arr, parity, **kw)
+            keep["ph"], keep["proto"] = ph, proto
         out = "ok"
     except Exception as e:  # noqa
         out = type(e).__name__ + ": " + str(e)[:60]
@@ -173,6 +199,15 @@ def run(tier, seed):
             vals = [0.4 * 10.0 ** (-6.0 * i) * (-1) ** i for i in range(k_)]       # reaches the subnormals and exact zeros
             ctx.count("wide-dynamic-range")
             one(ctx, S, vals, par_, None, None, force_form="float64-array")
+    # the caller uses its result, then asks again (same target, same settings, same process): solve - use - solve - solve
+    for vals, par_ in [([0.3], 0), ([0.25, -0.3], 1), ([0.2, 0.1, 0.3], 0), ([0.1, -0.2, 0.15, 0.2, -0.1], 1),
+                       ([0.5 / (i + 1) ** 2 * (-1) ** i for i in range(12)], 0), ([0.6 / (i + 2) ** 2 for i in range(25)], 1)]:
+        for use in ("update", "inplace", "phases-only"):
+            for crit_, maxiter_ in ((None, None), (1e-13, 30)):
+                vv = [v_ * (1 + 0.01 * len(use)) for v_ in vals]          # a target of its own for every (use, settings) chain
+                one(ctx, S, vv, par_, crit_, maxiter_, force_form="float64-array", use_result=use)
+                one(ctx, S, vv, par_, crit_, maxiter_, force_form="float64-array", use_result=use)
+                one(ctx, S, vv, par_, crit_, maxiter_, force_form="float64-array")
     # inputs on which the unchanged tree once failed (known_findings.json, "fixed"): replayed in every run
     import glob, json, os
     for path in sorted(glob.glob(os.path.join(core.VERIF, "corpus", PROP, "*.json"))):
